@@ -49,6 +49,8 @@ def check_intersect(emb, a, b, order):
     if order == "rev":
         A.reverse()
         B.reverse()
+    elif order == "rot":
+        A, B = A[1:] + A[:1], B[1:] + B[:1]  # neither ascending nor descending once a list has 3 events
     elif isinstance(order, tuple):
         A = [A[i] for i in order[0]]
         B = [B[i] for i in order[1]]
@@ -118,6 +120,10 @@ def check_union(emb, a, b, order):
     if order == "rev":
         A.reverse()
         B.reverse()
+    elif order == "rot":
+        # neither ascending nor descending (two buckets concatenated; seeded: heapq.merge over lists that
+        # were only flipped when they looked newest-first)
+        A, B = A[1:] + A[:1], B[1:] + B[:1]
     try:
         out = period_union(A, B)
     except Exception as e:
@@ -207,7 +213,9 @@ def _unit_u(args):
         if n >= 2:
             u.nontrivial += 1
         for k in splits:
-            for order in ("sorted", "rev"):
+            for order in ("sorted", "rev", "rot"):
+                if order == "rot" and max(k, n - k) < 3:
+                    continue
                 a, b = m[:k], m[k:]
                 u.evaluations += 1
                 u.transitions += 1
@@ -215,7 +223,7 @@ def _unit_u(args):
                     case = {"fn": "union", "unit_us": unit_us, "a": [list(x) for x in a], "b": [list(x) for x in b], "order": order}
                     u.violation(f"union:{sym}", f"period_union({list(a)}, {list(b)}) order {order}: {det}", case, size=n * 1000 + len(json.dumps(case)))
     if Ms:
-        u.sample({"fn": "period_union", "unit_us": unit_us, "multiset": [list(x) for x in Ms[-1]], "splits": "0|n, 1|n-1, n/2|n/2, n|0", "orders": ["sorted", "rev"]}, cap=1)
+        u.sample({"fn": "period_union", "unit_us": unit_us, "multiset": [list(x) for x in Ms[-1]], "splits": "0|n, 1|n-1, n/2|n/2, n|0", "orders": ["sorted", "rev", "rot (lists of >= 3)"]}, cap=1)
     return u.result()
 
 
@@ -233,7 +241,7 @@ def run(ctx):
         sets["N5n3"] = nonoverlapping_sets(5, 3)
         sets["N4n2"] = nonoverlapping_sets(4, 2)
         for ch in chunked(sets["N5n3"], ctx.workers * 6):
-            units.append(("i", (1_000_000, ch, "N5n3", ("sorted", "rev"))))
+            units.append(("i", (1_000_000, ch, "N5n3", ("sorted", "rev", "rot"))))
         for ch in chunked(sets["N4n2"], ctx.workers):
             units.append(("i", (1_000, ch, "N4n2", ("sorted", "rev"))))
         ms = arbitrary_multisets(5, 4)
